@@ -117,7 +117,7 @@ def check_C06(run):
     scen = merge(scen, F.fam_histgrow(g, "C06", sizes(run, 120, 1500), {"d": 1.0, "z": 0.4, "s": 0.3, "c": 0.2}))
     # SymmetricMode histories: tree not postordered, relaxed supernodes chosen from the tree the first call returned
     nontrivial = [h for h in hists if len(h) >= 2 and any(k[0] in ("SamePattern", "SPSRP", "SamePattern_SameRowPerm") for k in h)] or hists
-    for ty, k in ({"d": 70, "z": 30, "s": 25, "c": 25} if run.tier == "quick" else {"d": 800, "z": 400, "s": 300, "c": 300}).items():
+    for ty, k in ({"d": 50, "z": 20, "s": 16, "c": 16} if run.tier == "quick" else {"d": 800, "z": 400, "s": 300, "c": 300}).items():
         scen = merge(scen, {ty: [F.history_scenario(g, "C06-histsym-%05d-%s" % (i, ty), ty, nontrivial[(i * 7) % len(nontrivial)], sym=True) for i in range(k)]})
     run.conform("hist", scen, ["C06.", "C05.", "C02.", "C03.", "C04."])
     return run.finish(rule="TLC enumerates every call history of length <= 4 over Fact modes x value changes that respects the documented preconditions (SluHist); each is executed on a generated pattern and every call is validated as a fresh factorization of that call's matrix",
@@ -130,7 +130,7 @@ def check_C10(run):
         run.model_check("Order_r", "MC_Order.tla", "MC_Order_r.cfg", coverage=False)
         run.model_check("Order_t", "MC_Order.tla", "MC_Order_t.cfg", coverage=False, timeout=3000)
     g = Gen(run.seed * 1000 + 10)
-    run.conform("order", F.fam_order(g, "C10", sizes(run, 500, 4000), exhaustive3=True, blocks=sizes(run, 250, 4000)), ["C10.", "C19.abnormal_end", "C19.redzone"])
+    run.conform("order", F.fam_order(g, "C10", sizes(run, 500, 4000), exhaustive3=True, blocks=sizes(run, 180, 4000)), ["C10.", "C19.abnormal_end", "C19.redzone"])
     run.conform("orderbig", F.fam_order_big(g, "C10", sizes(run, 32, 300)), ["C10.", "C19.redzone", "C19.bad_free"], per_chunk=2)
     # the tree the drivers hand back (and the factor routine receives as an input) is the same object: SymmetricMode on and off
     tyd = {"d": 1.0, "z": 0.4, "s": 0.4, "c": 0.3}
